@@ -87,18 +87,21 @@ PROPS = {
         'assumptions': ['ASCII; regex rules outside the modelled RE2 fragment are undecided by the model (Go-side counter-example search still applies)', 'hostname requests: lower-case hostnames (documented caller obligation)'],
     },
     'C11': {
+        'incoq_k': 8,
         'harness': 'c11',
         'rule': 'storages of 1-4 lists with distinct ids drawn from {0, 1, 2, 7, -1, -5, 1000, 65536, 123456789, 2^31-1, -2^31}, IgnoreCosmetic on/off, contents of 0-29 lines with LF or CRLF (occasionally mixed, doubled), with or without final newline, blank and comment lines, cosmetic, hosts and network rules, invalid rules, multi-byte UTF-8 and NUL inside comments/cosmetic rules, lines of 4090-9000 bytes around the 4 KiB read buffer, leading/trailing blanks; String-backed and File-backed; scan, retrieval during the file scan, retrieval after the scan in reverse order and again in order (cache) from both backings; non-trivial = at least one rule was yielded',
         'correspondence': 'scan sequence (storage index, kind, text, list id) of the implementation vs storage_scan of the model; the harness flags any difference between String and File scans, any retrieval that does not return the scanned rule, and index collisions; the model side re-checks its own retrieval on every index',
         'assumptions': ['int32 list ids, offsets < 2^31 (the property domain)', 'network-rule lines with bytes >= 0x80 make the model decline the case'],
     },
     'C01': {
+        'incoq_k': 8,
         'harness': 'c01',
         'rule': 'storages of 1-3 String lists (ids incl. 0, negative and extreme int32) with 0-60 rules each: rules whose shortcut contains one of 24 pairs of djb2-colliding 5-byte windows (birthday search), shortcuts of length exactly 5 / below 5 / at the any-URL thresholds, $domain rules (incl. wildcard TLD and negated), rules without shortcut and domain (sequential table), families of rules sharing shortcut windows (histogram), exceptions, focused and grammar rules; 40 (120) requests per engine coupled to the rules, with colliding windows and windows at the very end of the URL; the harness also compares MatchAll with a linear scan over every network rule of the storage (the property own oracle); non-trivial = some request of the case matched a rule',
         'correspondence': 'per request, the sorted set of rule texts of NetworkEngine.MatchAll vs match_all of the model engine built by the model from the same storage with its own djb2 (also compared directly on sample strings)',
         'assumptions': ['ASCII rule lists; a request is skipped by the model if some rule match is outside the modelled fragment (Go-side linear-scan oracle still applies)'],
     },
     'C02': {
+        'incoq_k': 8,
         'harness': 'c02',
         'rule': 'storages of 1-3 lists with 0-40 lines mixing hosts lines (IPv4/IPv6/mapped, 1-8 names), bare domains, 12 pairs of djb2-colliding host names (birthday search) in hosts lines and in ||name^ rules, adblock rules with browser-only modifiers (content types, $domain, third-party, match-case, popup: ignored by the DNS engine), host-level rules with important / badfilter / dnstype / client / ctag / dnsrewrite / denyallow, exceptions, and lookup-table rules of C01; 40 (120) DNS requests per engine (listed, colliding, sub-, near-miss and empty host names; client name, IP, tag, record type); the harness also computes the reference resolution by scanning every rule; non-trivial = some request of the case was matched',
         'correspondence': 'per request: sorted texts of NetworkRules, class of NetworkRule (none/block/allow, important), sorted texts of HostRulesV4 and HostRulesV6, matched; implementation vs dns_match of the model engine built from the same storage',
@@ -120,19 +123,26 @@ PROPS = {
         'shards': 8,
     },
     'C13': {
+        'traces': True,
+        'incoq_k': 8,
         'harness': 'c13',
+        'run_module': 'RunSession',
         'rule': 'storages of 1-3 String lists (0-30 lines each: hosts lines, bare domains, host-level rules with important / badfilter / dnstype / client / ctag / dnsrewrite / denyallow, || rules reachable both by hostname and by URL requests, regex rules incl. an invalid one, lookup-table rules) shared by one NetworkEngine and one DNSEngine; histories of 30-60 (150-300 thorough) queries: URL requests (also https/ws/wss variants of hosts queried by name before), hostname requests through NetworkEngine.MatchAll, DNS requests through DNSEngine.MatchRequest with alternating client name / IP / tags / record type, one query in four repeating an earlier one (possibly through the other engine or with other client fields); after every third query the derived results (DNSRewrites, DNSRewritesAll, GetDNSBasicRule, NewMatchingResult.GetBasicResult, GetCosmeticOption) of older result objects are evaluated; the harness also asks every query on fresh engines and re-serialises every old result object at the end; non-trivial = some query of the history matched',
         'correspondence': 'per query the canonical answer (sorted rule texts; for DNS: network rules, basic-rule class, V4, V6, matched) of the implementation in history vs the STATEFUL model (cache, lazy compilation memo, request pool) run on the same history, which by C13_history_independent equals the pure answer; Go-side flags: answer differs from the fresh-engine answer, an old result object changed',
         'assumptions': ['slice aliasing between result objects is exercised on the implementation side only (re-serialisation of old results); the model treats results as values'],
     },
     'C19': {
+        'traces': True,
+        'incoq_k': 8,
         'harness': 'c19',
+        'run_module': 'RunSession',
         'rule': 'File-backed storages of 1-3 lists (0-25 lines, same line grammar as C13) with a NetworkEngine and a DNSEngine; base histories of 6-16 (6-40 thorough) queries; for EVERY fault point k in 0..n one case: queries 1..k, the fault (RuleStorage.Close, or every list file handle replaced by a closed descriptor), queries k+1..n, then queries 1..k again (rules materialised before the fault), occasionally a second fault; all queries under recover(); after the fault the harness checks on the implementation side that every returned rule matches its request and belongs to the fault-free answer (computed on a String-backed twin); non-trivial = some query after the fault still returned rules',
         'correspondence': 'per query the canonical answer of the implementation vs the stateful model run on the same history (cache filled in the order of the code, retrieval failing after the fault unless cached); Go-side flags: panic, returned rule that does not match, returned rule outside the fault-free answer',
         'exhaustive_part': 'fault point k = 0..n of every base history',
         'assumptions': ['faults are persistent (closed storage / closed descriptor), as in the property; the model does not express panics: they are observed under recover()'],
     },
     'C14': {
+        'traces': True,
         'harness': 'c14',
         'race': True,
         'rule': 'configurations of a storage (1-3 lists, String-backed or File-backed alternately, same line grammar as C13), 120 (400 thorough) requests (URL, hostname and DNS requests, a quarter repeating earlier ones) and a goroutine count in {2,3,4,8,16,32}; three passes on fresh engines with a cold cache: sequential reference; single-goroutine probe pass (TryLock / TryRLock on the real mutex at every cache read, cache write, file read and compile point: with one goroutine a missing Lock() cannot be masked by another holder); concurrent pass under the race detector with the requests partitioned over the goroutines and yields / short sleeps injected at the cache-miss, file-read, compile and pool boundaries, every answer compared with the sequential one, pooled request objects tracked for double ownership; non-trivial = some request of the configuration matched a rule',
